@@ -10,7 +10,10 @@ import (
 	"encoding/base64"
 	"encoding/json"
 	"fmt"
+	"regexp"
 	"sort"
+	"strconv"
+	"strings"
 	"time"
 
 	gmsl "github.com/matrix-org/gomatrixserverlib"
@@ -37,8 +40,31 @@ func (c *classMap) UnmarshalJSON(b []byte) error {
 	if err := json.Unmarshal(b, &m); err != nil {
 		return err
 	}
+	for k, v := range m {
+		if d := denote(k); d != k {
+			delete(m, k)
+			m[d] = v
+		}
+	}
 	*c = m
 	return nil
+}
+
+// denote realises the <U+XXXX> notation of the vocabulary (Redaction_gen.tla: fold variants of listed keys are
+// written in ASCII in the specification): "<U+017F>ender" is the member name U+017F e n d e r.
+var notation = regexp.MustCompile(`<U\+([0-9A-F]{4})>`)
+
+func denote(k string) string {
+	if !strings.Contains(k, "<U+") {
+		return k
+	}
+	return notation.ReplaceAllStringFunc(k, func(m string) string {
+		n, err := strconv.ParseUint(m[3:7], 16, 32)
+		if err != nil {
+			panic(err)
+		}
+		return string(rune(n))
+	})
 }
 
 // rec is one scenario: the abstract event and the key sets the specification keeps.
@@ -61,6 +87,21 @@ type rec struct {
 	// probes built from rejected trace lines: the concrete event, and what was recorded for it
 	Raw string `json:"raw,omitempty"`
 	API string `json:"api,omitempty"`
+	// kind "route": the entry point that makes the object, the spelling of the JSON text handed to it, the
+	// operations applied afterwards and what the object is after the entry point and after every operation
+	Entry string     `json:"entry,omitempty"`
+	Sp    string     `json:"sp,omitempty"`
+	Steps []string   `json:"steps,omitempty"`
+	Exp   []routeObs `json:"exp,omitempty"`
+}
+
+// routeObs is the abstract object after one step (Redaction_gen.tla: ObsOf).
+type routeObs struct {
+	Top  []string `json:"top"`
+	Con  []string `json:"con"`
+	Tpi  []string `json:"tpi"`
+	Sigs []string `json:"sigs"`
+	Red  bool     `json:"red"`
 }
 
 const nestedKey = "third_party_invite"
@@ -191,6 +232,8 @@ func stdTop(k string) json.RawMessage {
 		return json.RawMessage(`1700000000123`)
 	case "redacts":
 		return json.RawMessage(`"$redacted:` + hs1 + `"`)
+	case "event_id": // room version 3+: a member that trusted JSON may carry
+		return json.RawMessage(`"$std-event_id:` + hs1 + `"`)
 	case "sticky", "msc4354_sticky": // MSC4354
 		return json.RawMessage(`{"duration_ms":60000}`)
 	}
@@ -326,7 +369,11 @@ func contentHash(ev map[string]json.RawMessage) json.RawMessage {
 // then put in / taken out, the content hash is recomputed and the event is signed by both signers with
 // PDU.Sign (which signs the redacted form).  Returns the event JSON; its top-level key set is exactly
 // the scenario's.
-func pduEvent(r *rec) ([]byte, gmsl.PDU) {
+func pduEvent(r *rec) ([]byte, gmsl.PDU) { return pduEventWith(r, signersFor(r.Ver), false) }
+
+// pduEventWith: the same, signed by the given signers; moreHashes gives `hashes` a second member (so that a kept
+// top-level value has two members whose order a spelling can change).
+func pduEventWith(r *rec, signedBy []signer, moreHashes bool) ([]byte, gmsl.PDU) {
 	ver := gmsl.MustGetRoomVersion(gmsl.RoomVersion(r.Ver))
 	typ := concreteType(r.Type, r.Top["type"])
 	pe := gmsl.ProtoEvent{
@@ -383,6 +430,9 @@ func pduEvent(r *rec) ([]byte, gmsl.PDU) {
 	}
 	delete(ev, "signatures")
 	ev["hashes"] = contentHash(ev)
+	if moreHashes {
+		ev["hashes"] = json.RawMessage(`{"md5":"dmVyaWYtbWQ1LXZhbHVl",` + string(ev["hashes"][1:]))
+	}
 	p, err := ver.NewEventFromTrustedJSON(marshalRawMap(ev), false)
 	if err != nil && r.Kind == "vocab" {
 		// a vocabulary name may be a member the event parser types: values are opaque to redaction, so such a
@@ -394,7 +444,7 @@ func pduEvent(r *rec) ([]byte, gmsl.PDU) {
 	if err != nil {
 		panic(fmt.Sprintf("harness: composed event does not parse: %v: %s", err, marshalRawMap(ev)))
 	}
-	for _, s := range signersFor(r.Ver) {
+	for _, s := range signedBy {
 		p = p.Sign(s.name, s.key, s.priv)
 	}
 	return p.JSON(), built
